@@ -159,7 +159,7 @@ def _job(job):
     seed, n = job
     logging.disable(logging.CRITICAL)
     from bounded import nbspace
-    rnd = random.Random(seed)
+    rnd = random.Random(abs(seed))
     out, cnt, keys, sample = [], 0, set(), None
     subsets = [frozenset(c for c, bit in zip(CATS, bits) if bit) for bits in itertools.product([0, 1], repeat=6)]
     cat_ops = {'outputs': ['outputs_clear', 'outputs_append', 'outputs_change'], 'attachments': ['attachments'],
@@ -228,6 +228,8 @@ def run(res):
     nviol = len(res.violations)
     q = res.tier == 'quick'
     jobs = [(res.seed * 4099 + s, 30 if q else 120) for s in range(32 if q else 96)]
+    # the systematic sweep of the pair space (every pool cell x every edit operation; negative seeds select it in nbspace.pairs)
+    jobs += [(-(res.seed * 19 + s + 1), 0) for s in range(1 if q else 4)]
     seen = set()
     for cnt, fails, keys, sample in common.pmap(_job, jobs):
         res.evaluations += cnt
